@@ -70,16 +70,52 @@ def handle_suggestions(run, name, res):
         return
     groups = {}
     for f in bad:
-        groups.setdefault((f['kind'], f.get('suggestion')), []).append(f)
+        groups.setdefault((f['kind'], f.get('suggestion') or (f.get('message') or '')[:40]), []).append(f)
     n = 0
     for (kind, sug), fs in groups.items():
         fs.sort(key=lambda f: len(f['types']))
         f = fs[0]
+        if kind == 'c19-message-without-location':
+            rep, info = False, {}
+            for g in fs[:8]:
+                rep, info = replay_no_location(g)
+                if rep:
+                    f = g
+                    break
+            run.counterexample('%s:%s' % (kind, sug), 'the message for %r shows no source line with carets: %r' % (info.get('sql'), (info.get('message') or f.get('message'))[:120]),
+                               {'finding': f, 'native': info}, rep)
+            n += 1 if rep else 0
+            continue
         rep, info = replay_suggestion(f)
         key = '%s:%s' % (kind, sug)
         run.counterexample(key, 'suggestion %r after "%s" is not accepted by the parser' % (sug, ' '.join(f['types'])), {'finding': f, 'native': info}, rep)
         n += 1 if rep else 0
     run.ob(name, 'counterexample' if n else 'inconclusive', '%d findings in %d groups' % (len(bad), len(groups)))
+
+
+def replay_no_location(f):
+    """natively: the path's text is rejected by the real parse_sql with a message without carets although the real parser reports a
+    syntax error at a token of that text"""
+    from mindsdb_sql import parse_sql
+    from mindsdb_sql.exceptions import ParsingException
+    from engines.c19lib import error_position
+    if any(t.startswith('<any-of') for t in f['types']):
+        return False, {'note': 'unfixed token class'}
+    L, P = SW.dialect_classes('mindsdb')
+    sql = SW.rebuild_text('mindsdb', f) if f.get('base_sql') else to_sql('mindsdb', f['types'], f.get('linenos'))
+    try:
+        toks = list(L().tokenize(sql))
+    except Exception as e:  # noqa
+        return False, {'sql': sql, 'note': 'lexer: %r' % e}
+    pos = error_position(P, toks)
+    try:
+        parse_sql(sql, 'mindsdb')
+        return False, {'sql': sql, 'note': 'accepted'}
+    except ParsingException as e:
+        msg = str(e)
+    except Exception as e:  # noqa
+        return False, {'sql': sql, 'note': 'internal %r' % e}
+    return (pos is not None and pos >= 0 and '^' not in msg), {'sql': sql, 'message': msg[:300], 'parser_error_at_token': pos}
 
 
 def replay_suggestion(f):
@@ -155,7 +191,7 @@ def replay(path):
     print(json.dumps(r, indent=1))
     f = r['replay'].get('finding')
     if f:
-        rep, info = replay_suggestion(f)
+        rep, info = replay_no_location(f) if f.get('kind') == 'c19-message-without-location' else replay_suggestion(f)
         print('native replay now: reproduced=%s %s' % (rep, json.dumps(info, default=repr)))
         return 1 if rep else 0
     return 2
